@@ -761,6 +761,159 @@ func rrCases(run *vh.Run) {
 	}
 }
 
+// ---------- F1b. rr lookups while many tables are installed: exact shares PER TABLE ----------
+// G goroutines look up one (host, path) through route.GetTable() while a writer installs tables in
+// quick succession, all containing that route with k equal targets.  Every target is registered
+// with its table's generation before the table is published, so each pick is attributed to the
+// table that served it.  Per generation: the picks must be the next n values of that table's
+// cursor, which starts at 0 (a table is immutable after SetTable except for its own cursors).
+type genTarget struct{ gen, idx int }
+
+func rrPerTable(run *vh.Run) {
+	gc := route.NewGlobCache(16)
+	type outcome struct {
+		k      int
+		counts string
+		n      int
+		cursor uint64
+	}
+	seen := map[outcome]int{}
+	sample := map[outcome][]int{}
+	totalGens, servedGens := 0, 0
+	for _, k := range []int{2, 3} {
+		var lines []string
+		for j := 0; j < k; j++ {
+			lines = append(lines, fmt.Sprintf("route add s%d gen.example/ http://t%d.internal:80/", j, j))
+		}
+		text := strings.Join(lines, "\n")
+		nGen := run.Scale(700, 6000)
+		G := 8
+		var reg sync.Map // *route.Target -> genTarget
+		routes := make([]*route.Route, 0, nGen)
+		install := func(gen int) {
+			tbl := mustTable(text)
+			ro := tbl["gen.example"][0]
+			for i, t := range ro.Targets {
+				reg.Store(t, genTarget{gen, i})
+			}
+			routes = append(routes, ro)
+			route.SetTable(tbl)
+		}
+		install(0)
+		counts := make([][][]int, G) // goroutine, generation, target
+		stop := make(chan struct{})
+		var wg sync.WaitGroup
+		var bad int64
+		for g := 0; g < G; g++ {
+			counts[g] = make([][]int, nGen)
+			wg.Add(1)
+			go func(g int) {
+				defer wg.Done()
+				req := newReq("gen.example", "/", "10.0.0.1:1")
+				for {
+					select {
+					case <-stop:
+						return
+					default:
+					}
+					tg := route.GetTable().Lookup(req, "", rrPick, prefixMatch, gc, false)
+					v, ok := reg.Load(tg)
+					if !ok {
+						atomic.AddInt64(&bad, 1)
+						continue
+					}
+					gt := v.(genTarget)
+					if counts[g][gt.gen] == nil {
+						counts[g][gt.gen] = make([]int, k)
+					}
+					counts[g][gt.gen][gt.idx]++
+				}
+			}(g)
+		}
+		for gen := 1; gen < nGen; gen++ {
+			install(gen)
+			if gen%4 == 0 {
+				runtime.Gosched()
+			}
+			if gen%64 == 0 {
+				time.Sleep(200 * time.Microsecond)
+			}
+		}
+		time.Sleep(2 * time.Millisecond)
+		close(stop)
+		wg.Wait()
+		route.SetTable(mustTable(""))
+		if bad > 0 {
+			run.Violation(run.NextID(), "rr lookup during table replacement returned a target of no installed table", nil)
+		}
+		ring := routes[0].VerifC06Ring()
+		for gen, ro := range routes {
+			sum := make([]int, k)
+			n := 0
+			for g := 0; g < G; g++ {
+				for t, c := range counts[g][gen] {
+					sum[t] += c
+					n += c
+				}
+			}
+			totalGens++
+			if n > 0 {
+				servedGens++
+			}
+			o := outcome{k, natList(sum), n, ro.VerifC06Cursor()}
+			seen[o]++
+			sample[o] = sum
+		}
+		_ = ring
+	}
+	// distinct outcomes become cases; the ones whose counts are not within 1 of each other or whose cursor
+	// is not the number of picks first, so that the cap never hides them (the verdict is Coq's)
+	var outs []outcome
+	for o := range seen {
+		outs = append(outs, o)
+	}
+	odd := func(o outcome) bool {
+		mn, mx := 1<<30, 0
+		for _, c := range sample[o] {
+			if c < mn {
+				mn = c
+			}
+			if c > mx {
+				mx = c
+			}
+		}
+		return mx-mn > 1 || uint64(o.n) != o.cursor
+	}
+	sort.Slice(outs, func(i, j int) bool {
+		if odd(outs[i]) != odd(outs[j]) {
+			return odd(outs[i])
+		}
+		if outs[i].k != outs[j].k {
+			return outs[i].k < outs[j].k
+		}
+		if outs[i].n != outs[j].n {
+			return outs[i].n > outs[j].n
+		}
+		return outs[i].counts < outs[j].counts
+	})
+	perK := map[int]int{}
+	for _, o := range outs {
+		if perK[o.k] >= run.Scale(40, 400) && !(odd(o) && perK[o.k] < 400) {
+			continue
+		}
+		perK[o.k]++
+		ring := make([]int, o.k)
+		for j := range ring {
+			ring[j] = j
+		}
+		run.Add(fmt.Sprintf("rr-per-table-%d-targets", o.k), vh.App("CRRTable", natList(ring), vh.N64(0), strconv.Itoa(o.n), o.counts, vh.N64(o.cursor)),
+			map[string]interface{}{"targets": o.k, "picks_served_by_this_table": o.n, "picks_per_target": sample[o], "cursor_after": o.cursor, "tables_with_this_outcome": seen[o]})
+	}
+	run.Notes["rr_per_table_generations"] = totalGens
+	run.Notes["rr_per_table_generations_that_served_lookups"] = servedGens
+	run.Notes["rr_per_table_distinct_outcomes"] = len(outs)
+}
+
 // ---------- F2. the random picker (default strategy) under concurrency ----------
 var rndTables = append(append([]rrTable{}, rrTables...),
 	rrTable{"weighted-100-0", "route add a rr.example/ http://a.internal:80/ weight 1\nroute add b rr.example/ http://b.internal:80/"},
@@ -1213,16 +1366,34 @@ func min(a, b int) int {
 	return b
 }
 
+// phase runs one part of the harness under a watchdog: real fabio code that blocks for ever (a mutex
+// that is never released, a lookup that never returns) must end the run with a violation instead of
+// hanging it until the driver's timeout.
+func phase(run *vh.Run, name string, f func(*vh.Run)) {
+	done := make(chan struct{})
+	go func() { f(run); close(done) }()
+	limit := time.Duration(run.Scale(150, 1500)) * time.Second
+	select {
+	case <-done:
+	case <-time.After(limit):
+		run.Violation(-1, fmt.Sprintf("harness phase %q did not finish within %v: a call into fabio blocks for ever (lookups deadlocked?)", name, limit), nil)
+		raceReports(run)
+		run.Finish(preamble, run.Scale(38, 200))
+		os.Exit(0)
+	}
+}
+
 func main() {
 	raceReexec()
 	run := vh.Start("C06")
-	forcedCases(run)
-	globSeqCases(run)
-	rrCases(run)
-	rndCases(run)
-	lookupCases(run)
-	globConcCases(run)
-	stress(run)
+	phase(run, "forced schedules and serial histories", forcedCases)
+	phase(run, "glob cache, sequential histories", globSeqCases)
+	phase(run, "round robin", rrCases)
+	phase(run, "round robin per table generation", rrPerTable)
+	phase(run, "random picker", rndCases)
+	phase(run, "sequential lookups", lookupCases)
+	phase(run, "glob cache, concurrent", globConcCases)
+	phase(run, "mixed stress", stress)
 	raceReports(run)
 	run.Finish(preamble, run.Scale(38, 200))
 }
